@@ -18,6 +18,8 @@ w(f"//@ classdef int0 = isI(result, 0)")
 w(f"//@ classdef float0 = isF(result, 0.0)")
 w(f"//@ classdef num2 = mlrval.IsIntVal(result) || mlrval.IsFloatVal(result) || (result != nil && {K}(result) == mlrval.MT_ERROR)")
 w(f"//@ classdef pick2 = result == input1 || result == input2")
+# the exact integer sum (C10: sums of ints stay ints); used by the accumulators through BIF_plus_binary
+w(f"//@ classdef sumII = imp(mlrval.IsIntVal(input1) && mlrval.IsIntVal(input2) && addFits(mlrval.VInt(input1), mlrval.VInt(input2)), mlrval.IsIntVal(result) && mlrval.VInt(result) == mlrval.VInt(input1) + mlrval.VInt(input2))")
 w(f"//@ classdef neg2 = imp(mlrval.IsIntVal(input2), isI(result, -old(iv(input2)))) && imp(mlrval.IsFloatVal(input2), isF(result, -old(fv(input2))))")
 w("// ---- classes of disposition-vector cells (unary) ----")
 w(f"//@ classdef ret1u = result == input1")
